@@ -5,6 +5,7 @@ import (
 )
 
 func mergeDocs(doc, patch *Document) error {
+	verifEvent("merge", doc.ID, patch.ID)
 	// Each target gets its own copy of the patch so that documents never
 	// share (or mutate) layer data.
 	merged, err := merge(doc.Data, cloneValue(patch.Data))
@@ -19,6 +20,7 @@ func mergeDocs(doc, patch *Document) error {
 }
 
 func merge(dst any, src any) (any, error) {
+	verifStep(verifSiteMerge)
 	switch dst2 := dst.(type) {
 	case map[string]any:
 		return mergeMap(dst2, src)
